@@ -73,6 +73,11 @@ CHECKS = {
    note="Trusted: as C04 plus the symbolic idealisation of dryoc's crypto_box / snow's ChaChaPoly (no claim about the primitives or side channels); no-forgery premise `unforged` on attacker streams. One defect repaired (u16 record length wrap), two recorded.",
    technique="Coq proof relative to an ideal symbolic AEAD: append-stable record stepper, lock-step counter induction over arbitrary unforged streams; differential correspondence on real CURVE/NOISE_XX engine pairs",
    design="6/C18"),
+ "C10": dict(
+   text="Coq proofs over a small-step model of REQ and REP cut at the code's lock scopes and await points, for every number of tasks, every program and EVERY schedule (induction over schedules): the commit trace of successful calls is accepted by the alternation automaton (send, recv, send, ... on REQ; recv, send, ... on REP; with the code's reset events), a call refused by its opening state check changes nothing, every REP reply is addressed with the routing prefix and pipe of the request returned by the immediately preceding successful recv. Tie: schedule points between state check and state update in the real req_socket.rs / rep_socket.rs; real REQ/REP sockets with scripted ROUTER/DEALER peers; every call future polled by hand so that one token advances one task from point to point; all 2-task (thorough: 3-task) interleavings of every call kind and call orders up to length 3 (5) compared row by row with the model; 4-worker stress as failing-input search.",
+   note="Trusted: as C03; one poll of select! is atomic; tokio Notify semantics; SNDTIMEO, closing sockets and full pipes are not modelled. The check-then-act races found on the real code were repaired by a fix: commit (in-flight guard); see known_findings.json.",
+   technique="Coq proof: invariant over all interleavings of a small-step model with a ghost commit trace; schedule-point replay correspondence (exhaustive for 2-3 concurrent calls)",
+   design="6/C10"),
 }
 NOT_APPLICABLE = {}
 
